@@ -285,8 +285,8 @@ def task_analyze(task):
                 gr["instances"].append(inst)
                 continue
             try:
-                inst["A"] = [[str(sp.nsimplify(sp.sympify(x).subs(subs))) for x in row] for row in gr["matrix"]]
-                inst["v"] = [str(sp.nsimplify(sp.sympify(x).subs(subs))) for x in gr["vector"]]
+                inst["A"] = [[str(exppoly.exact(sp.sympify(x).subs(subs))) for x in row] for row in gr["matrix"]]
+                inst["v"] = [str(exppoly.exact(sp.sympify(x).subs(subs))) for x in gr["vector"]]
                 if full:
                     from polar_tasks import enc_cf, closed_form_data
                     inst["cf"] = enc_cf(closed_form_data(comp, n, subs, 0))
